@@ -1023,6 +1023,9 @@ func (m *Manager) PoolTransaction(id types.TransactionID) (types.Transaction, bo
 	i, ok := m.txpool.indices[id]
 	if !ok {
 		return types.Transaction{}, false
+	} else if i >= len(m.txpool.txns) || m.txpool.txns[i].ID() != id {
+		// the index map is shared with v2 transactions; id is a v2 transaction
+		return types.Transaction{}, false
 	}
 	return m.txpool.txns[i], ok
 }
@@ -1044,6 +1047,9 @@ func (m *Manager) V2PoolTransaction(id types.TransactionID) (types.V2Transaction
 	m.revalidatePool()
 	i, ok := m.txpool.indices[id]
 	if !ok {
+		return types.V2Transaction{}, false
+	} else if i >= len(m.txpool.v2txns) || m.txpool.v2txns[i].ID() != id {
+		// the index map is shared with v1 transactions; id is a v1 transaction
 		return types.V2Transaction{}, false
 	}
 	return m.txpool.v2txns[i].DeepCopy(), ok
